@@ -99,6 +99,7 @@ func runCheck(opts checkOpts) int {
 	var obls []*Obligation
 	obls = append(obls, p.groundObligations()...)
 	obls = append(obls, p.generate("")...)
+	p.inheritTags(obls)
 	obls = append(obls, p.disciplineObligations()...)
 	obls = append(obls, p.toolObligations(opts)...)
 	obls = append(obls, p.conformanceObligations(opts)...)
